@@ -141,6 +141,9 @@ class SpecGen:
             return self.listlike(t[1], n)
         if k == "reglist":
             size = t[2]
+            if size >= 1 and t[1][0] == "num" and self.opts.get("layout_numpy_2d", True) and r.random() < 0.25:
+                # the other encoding of "n lists of exactly `size` numbers": a two-dimensional NumpyArray
+                return self.numpy2d(t[1][1], n, size)
             extra = r.randrange(size) if size > 1 else 0      # fewer than one more row
             content = self.array(t[1], n * size + extra)
             return {"k": "regular", "size": size, "zeros_length": n if size == 0 else 0, "n": n, "content": content}
@@ -186,6 +189,18 @@ class SpecGen:
         unit = "s" if dt in ("datetime64", "timedelta64") else ""
         return {"k": "numpy", "dtype": dt, "buf": pack_items(dt, items).hex(), "shape": [n], "strides": [stride_items * isz],
                 "byteoffset": pad * isz, "unit": unit}
+
+    def numpy2d(self, dt, n, size):
+        r = self.r
+        isz = DTYPES[dt][2]
+        item_stride = r.choice([1, 1, 1, 2])                  # in items
+        row_stride = item_stride * size + r.choice([0, 0, 1, 3])
+        pad = r.choice([0, 0, 1, 2])
+        total = pad + (max(0, (n - 1) * row_stride + (size - 1) * item_stride + 1) if n > 0 else 0) + r.choice([0, 1])
+        items = [rand_scalar(r, dt) for _ in range(total)]
+        unit = "s" if dt in ("datetime64", "timedelta64") else ""
+        return {"k": "numpy", "dtype": dt, "buf": pack_items(dt, items).hex(), "shape": [n, size],
+                "strides": [row_stride * isz, item_stride * isz], "byteoffset": pad * isz, "unit": unit}
 
     def listlike(self, inner, n, param=None):
         r = self.r
@@ -292,6 +307,15 @@ def value_of(spec):
         dt = spec["dtype"]
         code, isz = DTYPES[dt][1], DTYPES[dt][2]
         buf = bytes.fromhex(spec["buf"])
+        if len(spec["shape"]) == 2:
+            rows = []
+            for i in range(spec["shape"][0]):
+                row = dict(spec)
+                row["shape"] = [spec["shape"][1]]
+                row["strides"] = [spec["strides"][1]]
+                row["byteoffset"] = spec["byteoffset"] + i * spec["strides"][0]
+                rows.append(value_of(row))
+            return rows
         out = []
         for i in range(spec["shape"][0]):
             p = spec["byteoffset"] + i * spec["strides"][0]
